@@ -462,7 +462,8 @@ def run(ctx):
 
 
 # ------------------------------------------------------------------------------------------------ (B) simplify
-OPCODES = {"+": 0, "*": 1, "-": 2, "/": 3, "quotient": 4, "remainder": 5, "<": 10, "=": 11}
+OPCODES = {"+": 0, "*": 1, "-": 2, "/": 3, "quotient": 4, "remainder": 5, "<": 10, "=": 11,
+           "cons": 20, "car": 21, "cdr": 22, "pair?": 23, "null?": 24, "vector-ref": 25, "vector-length": 26}      # 20..26: Sem3.data_eval (never folded)
 BIGS = [(1 << 62) - 1, -(1 << 62), (1 << 61), 3037000500, (1 << 62), 1 << 70]
 
 
@@ -484,7 +485,7 @@ class Gen:
         self.rng, self.rich = rng, rich
         self.ratnames = set()     # names bound somewhere to an exact division: never injected into an integer expression
         self.stats = dict(fold=0, fold_raises=0, let_const=0, let_mutated=0, shadow=0, const_test=0, seq_drop=0, effect_stmt=0, rest=0,
-                          quoted=0, quoted_false_test=0, macro_cond=0, ratio=0)
+                          quoted=0, quoted_false_test=0, macro_cond=0, ratio=0, tower=0)
 
     def q(self, s):
         """either spelling of a self-evaluating constant: as itself (analyze returns an immediate, or the heap datum) or
@@ -605,7 +606,20 @@ class Gen:
             if self.rng.random() < 0.5: args.append(self.lit())
         b = self.body(inner, d - 1, want_int)
         if "(set! " in b: self.stats["let_mutated"] += 1
-        return "((lambda (%s) %s) %s)" % (params, b, " ".join(args))
+        return "(%s %s)" % (self.tower("(lambda (%s) %s)" % (params, b)), " ".join(args))
+
+    TOWERS = ["(if #t %s 0)", "(if '#f 0 %s)", "(begin 'q1 %s)", "(if (+ 1 2) %s 1)", "(begin 1 \"s1\" %s)", "(if (if #t '#f 1) 2 %s)",
+              "(if (- 1 1) %s (lambda z 0))", "(begin (if #f #f) %s)", "(if '() %s 3)"]
+
+    def tower(self, lam, p=0.08):
+        """round 3: the operator is NOT syntactically a lambda but simplifies to one (literal `if` test, `begin` whose other
+        elements are dropped): simplify.c:61 then applies the let handling to the SIMPLIFIED operator and simplifies its
+        body a second time (Simplify2.simpN)"""
+        while self.rng.random() < p:
+            self.stats["tower"] += 1
+            lam = self.rng.choice(self.TOWERS) % lam
+            p = 0.3
+        return lam
 
     def ratexpr(self, scope, d):
         """exact division and arithmetic on its (possibly non-integer) results: never an operand of quotient/remainder"""
@@ -643,6 +657,61 @@ class Gen:
         calls = " ".join("(out (f %s))" % " ".join(str(r.randrange(9)) for _ in range(n)) for n in r.sample([1, 2, 3, 4], r.choice([2, 3])))
         return "((lambda (f) %s %s (f 0)) (lambda (a . r) %s %s))" % (calls, c1, r.choice(["1", "'x", "a", "r"]), body)
 
+    # ---- round 3: rest parameters, pairs / vectors as values, several call arities: inside the third SPEC interpreter (Sem3.eval3)
+    def dexpr(self, ints, lists, d):
+        """an expression over integer variables `ints` and list variables `lists` (rest parameters): any value"""
+        r, k = self.rng, self.rng.randrange
+        i = lambda: self.intexpr((list(ints), set(ints)), 1) if ints and r.random() < 0.6 else self.intlit()
+        L = lambda: r.choice(lists) if lists and r.random() < 0.75 else r.choice(["'()", "(list %s)" % i(), "(cons %s '())" % i(), "(list %s %s)" % (i(), i())])
+        t = k(14) if d > 0 else k(5)
+        if t == 0: return i()
+        if t == 1: return L()
+        if t == 2: return "(length %s)" % L()
+        if t == 3: return "(null? %s)" % L()
+        if t == 4: return "(pair? %s)" % r.choice([L(), i()])
+        if t == 5: return "(cons %s %s)" % (self.dexpr(ints, lists, d - 1), self.dexpr(ints, lists, d - 1))
+        if t == 6: return "(if (null? %s) %s (car %s))" % ((lambda l: (l, self.dexpr(ints, lists, d - 1), l))(L()))
+        if t == 7: return "(if (pair? %s) (cdr %s) %s)" % ((lambda l: (l, l, self.q(r.choice(["#f", "0", "\"s1\""]))))(L()))
+        if t == 8: return "(vector-ref (vector %s %s %s) %s)" % (i(), self.dexpr(ints, lists, d - 1), L(), r.choice(["0", "1", "2", "(- 3 1)", "(+ 1 2)", "'1"]))
+        if t == 9: return "(vector-length (vector %s))" % " ".join(i() for _ in range(k(4)))
+        if t == 10: return "(list %s)" % " ".join(self.dexpr(ints, lists, d - 1) for _ in range(k(4)))
+        if t == 11:   # a let whose lambda has a rest parameter: as many arguments as fixed parameters (parameters deleted, rest = '()) or more
+            n, extra = k(1, 3), r.choice([0, 0, 1, 2])
+            ps = ["k%d" % j for j in range(n)]
+            args = [self.q(str(k(9))) if r.random() < 0.6 else i() for _ in range(n + extra)]
+            return "(%s %s)" % (self.tower("(lambda (%s . q) %s)" % (" ".join(ps), self.dexpr(list(ints) + ps, list(lists) + ["q"], d - 1)), 0.15), " ".join(args))
+        if t == 12: return "(car %s)" % L()          # raises on '()
+        return "(begin (out %s) %s)" % (self.dexpr(ints, lists, d - 1), self.dexpr(ints, lists, d - 1))
+
+    def data_program(self):
+        """a procedure with a rest parameter bound to a variable and called with several argument counts; the body works on
+        the rest list and on pairs / vectors it builds, holds foldable arithmetic, constant lets (also with rest parameters,
+        with exactly the fixed count = parameters deleted, or more arguments) and operators that only become lambdas"""
+        r, k = self.rng, self.rng.randrange
+        nfix = k(0, 3)
+        ps = ["a", "b"][:nfix]
+        pre = r.choice(["", "", "(set! r (cons %s r)) " % self.intlit(), "(out (length r)) ", "r ", "'q1 "])
+        body = pre + self.dexpr(ps, ["r"], 3)
+        lam = "(lambda %s %s)" % (("(%s . r)" % " ".join(ps)) if ps else "r", body)
+        calls = []
+        for n in r.sample([0, 1, 2, 3, 5], r.choice([2, 3])):
+            calls.append("(out (f %s))" % " ".join(str(k(9)) for _ in range(nfix + n)))
+        if r.random() < 0.15: calls.append("(out (f))" if nfix else "(out (f 'x \"s1\"))")      # too few arguments: an error
+        return "((lambda (f) %s (f %s)) %s)" % (" ".join(calls), " ".join(str(k(9)) for _ in range(nfix + 1)), lam)
+
+    REST_BODIES = ["(if #f r a)", "(if '#f (set! r 1) a)", "(if #f (begin (set! r (cons a r)) r) a)", "((lambda (k) (if k a (car r))) #t)",
+                   "((lambda (k) (if k a (set! r k))) '#t)", "(begin r a)", "(begin (if #f r 1) (+ a 1))", "(if a r 0)", "(cons a r)", "a", "(+ a 1 2)",
+                   "(begin (set! r 5) a)", "(lambda () r)", "((lambda (x . r) x) a)", "((lambda (x . q) (if (null? q) x r)) a)",
+                   "(if (quotient 1 0) r a)", "((if #t (lambda (k) (if k a r)) 0) 7)", "((lambda (k) (if (- k k) a (length r))) 3)",
+                   "(if (+ '#f) (set! r 2) (* a 2))", "((lambda (f) (f)) (lambda () (if '#f r a)))", "(begin (if '#f (set! b r) 0) (cons a b))"]
+
+    def restflag_lambda(self):
+        """a bare lambda with a rest parameter whose only uses / assignments sit in code the pass removes (dead branch behind
+        a literal, folded or propagated test; dropped statement), or stay, or do not exist: sexp_rest_unused_p runs on the
+        SIMPLIFIED lambda while the set-vars list dates from before the pass"""
+        b = self.rng.choice(self.REST_BODIES)
+        return "(lambda %s %s)" % (self.rng.choice(["(a b . r)", "(a b c . r)"] + ([] if " b" in b else ["(a . r)"])), b)
+
     def closure_program(self):
         """core forms only (lambda, set!, if, application): first-class closures, recursion through an assigned
         variable, counters, closures capturing propagated constants — inside the second SPEC interpreter (Sem2)"""
@@ -667,7 +736,8 @@ class Gen:
 
 class Names:
     def __init__(self):
-        self.names, self.tags = {"out": 1}, {}
+        # global procedures the third SPEC interpreter knows (Sem3.OUT/LIST/VECTOR/LENGTH); tag 0 = the empty list (Sem3.NIL)
+        self.names, self.tags = {"out": 1, "list": 2, "vector": 3, "length": 4}, {"()": 0}
 
     def name(self, s):
         return self.names.setdefault(s, len(self.names) + 1)
@@ -734,6 +804,35 @@ def _show_const(c, nm):
     if c == "v": return None
     inv = {v: k for k, v in nm.tags.items()}
     return inv[int(c[1:])].replace("~", " ")          # the dump harness writes the datum with (write), spaces as ~
+
+
+def _dat_text(toks, nm):
+    """Sem3 datum as printed by the driver (show_dat) -> what (write v) prints; None when it holds the unspecified value"""
+    out = []
+    for t in toks:
+        if t in ("(", ")", "#(", "."):
+            out.append(t)
+        else:
+            c = _show_const(t, nm)
+            if c is None:
+                return None
+            out.append(c)
+    return " ".join(out).replace("( ", "(").replace(" )", ")")
+
+
+def _spec_of(ans, nm, third=False):
+    """answer of a run / run2 / run3 request -> (value text | None = a procedure or unspecified, [output texts]) or None = undefined"""
+    if not ans.startswith("V"):
+        return None
+    val, _, outl = ans.partition(" |")
+    vt = val.split()[1:]
+    if third:
+        outs = [_dat_text(o.split(), nm) for o in outl.split(" ; ")[1:]]
+        v = None if vt == ["proc"] else _dat_text(vt, nm)
+    else:
+        outs = [_show_const(c, nm) for c in outl.split()]
+        v = None if vt == ["proc"] else _show_const(vt[0], nm)
+    return (v, outs)
 
 
 OUTER_PRELUDE = """(import (scheme base) (scheme write))
@@ -953,6 +1052,121 @@ def _unbound_part(ctx, dirs):
                "the default build then continues where SEXP_USE_SIMPLIFY=0 raises (checked: no other outcome occurs, tail references are kept)")
 
 
+def _registered_passes(ctx, dirs):
+    """(round 3) which passes run between analysis and code generation in THIS build: the list sexp_global(ctx, SEXP_G_OPTIMIZATIONS)
+    (eval.c sexp_load_standard_env registers sexp_simplify with priority 500 under SEXP_USE_SIMPLIFY; lib/chibi/optimize/{rest,profile}.scm
+    call register-lambda-optimization! only when a program imports them) is printed by harness/embed_c09_opts.c right after the
+    standard environment is loaded and after importing the libraries the generated programs use.  The model covers exactly
+    [500:sexp_simplify] (and [] for SEXP_USE_SIMPLIFY=0): anything else fails closed."""
+    src = os.path.join(HERE, "..", "harness", "embed_c09_opts.c")
+    imports = "(import (scheme base) (scheme write) (scheme eval) (scheme file) (scheme load) (srfi 18) (chibi ast))"
+    names = dict(default="default", nosimplify="nosimplify", customll="customll", both="nosimplify_customll")
+    for v, d in sorted(dirs.items()):
+        exe = os.path.join(d, "embed_c09_opts")
+        try:
+            B.cc_embed(d, src, exe, extra=[f for f in B.VARIANTS[names[v]].get("CPPFLAGS", "").split() if f.startswith("-DSEXP_USE_")])
+        except B.BuildError as e:
+            ctx.broken("table:registered-optimisations:" + v, "cannot compile the harness that lists the registered passes: %s" % str(e)[-600:])
+            continue
+        r = subprocess.run([exe, imports, "(import (chibi optimize))"], capture_output=True, text=True, env=B.chibi_env(d), timeout=120)
+        lines = dict(l.split(":", 1) for l in r.stdout.split("\n") if ":" in l and not l.startswith("WARNING"))
+        want = "" if v in ("nosimplify", "both") else " 500:sexp_simplify=sexp_simplify"
+        got = {k: lines.get(k) for k in ("standard-env", imports, "(import (chibi optimize))")}
+        ctx.count(1, key=("registered-passes", v), nontrivial=True)
+        if r.returncode != 0 or any(g != want for g in got.values()):
+            ctx.broken("table:registered-optimisations:" + v,
+                       "build %s registers other optimisation passes than the model covers: expected '%s' at every moment, observed %s (rc=%s %s)" % (v, want.strip(), got, r.returncode, r.stderr[-300:]))
+        else:
+            ctx.note("registered optimisation passes, build %s: [%s] after sexp_load_standard_env, after importing the libraries the programs use, and after (import (chibi optimize)) "
+                     "(lib/chibi/optimize/rest.scm and profile.scm register a pass only when imported; no library of the distribution imports them)" % (v, want.strip()))
+
+
+def _foreign_programs(ctx):
+    """(round 3) read-only reuse of the OUTPUT of the program generators of C03 (scoping / closure conversion: corpus, fixed call-protocol
+    cases, capture / rest-parameter / forward-reference / top-level / chain / constants / tail-call families) and C05 (tail calls: loop
+    programs over every tail context x callee shape, random spines): -> [(key, text of the top-level forms)]"""
+    from props import C03 as K3, C05 as K5
+    rng, q = ctx.rng, not ctx.thorough
+    progs = list(K3.load_corpus()) + [(k, f) for k, f in K3.FIXED_CASES] + [("misc-" + k, f) for k, f in K3.MISC_CASES] + [(k, f) for k, f in K3.REDEFINE_READS_OLD]
+    for fam in (lambda: K3.nary_family(), lambda: K3.rest_family(rng, 4 if q else None), lambda: K3.capture_pos_family(rng, 60 if q else None),
+                lambda: K3.fwd_family(rng, 60 if q else None), lambda: K3.toplevel_family(rng, 60 if q else 1500), lambda: K3.chain_family(rng, 40 if q else None),
+                lambda: K3.const_family(rng, quick=q), lambda: K3.argeval_family(), lambda: K3.tailcall_family()):
+        try:
+            progs += [(k, f) for k, f in fam()]
+        except Exception as e:              # another builder's generator changed its interface: not this property's failure
+            ctx.note("a C03 program family could not be reused (%s: %s)" % (type(e).__name__, e))
+    out = [("C03:" + str(k), " ".join(K3.scm(f) for f in forms)) for k, forms in progs]
+    for i in range(100 if q else 2000):
+        g = K3.Gen(rng, derived=(i % 2 == 1))
+        out.append(("C03:random-typed", " ".join(K3.scm(f) for f in g.program(rng.choice([2, 3, 4])))))
+    try:
+        tails = [c for c in K5.CONTEXTS if c[1]]
+        cases = [([c], None, callee, "value") for c in K5.CONTEXTS for callee in K5.CALLEES + K5.TOPLET]
+        for n, c in enumerate(tails):
+            for sb in K5.SIBLINGS:
+                if K5.compatible(c, sb):
+                    cases.append(([c], [sb], K5.CALLEES[n % len(K5.CALLEES)], K5.EXITS[(n // 3) % len(K5.EXITS)]))
+        for n in range(60 if q else 2000):
+            cs = [rng.choice(tails) for _ in range(rng.choice([2, 2, 3, 4]))]
+            sbs = [rng.choice([sb for sb in K5.SIBLINGS if K5.compatible(c, sb)]) for c in cs]
+            cases.append((cs, sbs, rng.choice(K5.CALLEES if rng.random() < 0.7 else K5.TOPLET), rng.choice(K5.EXITS)))
+        if q:
+            cases = [cases[i] for i in sorted(rng.sample(range(len(cases)), min(len(cases), 400)))]
+        for cs, sbs, callee, ek in cases:
+            forms, _ = K5.loop_program(cs, callee, 5, False, sbs, ek)
+            out.append(("C05:" + "+".join(c[0] for c in cs) + "/" + callee, " ".join(K3.scm(f) for f in forms)))
+    except Exception as e:
+        ctx.note("the C05 loop programs could not be reused (%s: %s)" % (type(e).__name__, e))
+    seen, uniq = set(), []
+    for k, t in out:
+        if t not in seen:
+            seen.add(t); uniq.append((k, t))
+    return uniq
+
+
+FOREIGN_PRELUDE = """(import (scheme base) (scheme write) (scheme read) (scheme eval) (only (meta) mutable-environment))
+(define (run-prog n text)
+  (write-string "CASE ") (write n) (newline)
+  (let ((env (mutable-environment '(scheme base) '(scheme write) '(scheme cxr))) (p (open-input-string text)))   ; fresh and mutable: top-level defines allowed
+    (guard (e (#t (write-string "ERR") (newline)))
+      (let loop ((v (if #f #f)))
+        (let ((form (read p)))
+          (if (eof-object? form)
+              (begin (write-string "RES ") (write v) (newline))
+              (loop (eval form env))))))))
+"""
+
+
+def _foreign_part(ctx, dirs):
+    """the programs of the C03 / C05 generators, each evaluated form by form in a fresh environment, under the four builds: printed output
+    and result (or ERR) must be identical - build-variant equality on program shapes this property's own generator does not produce"""
+    progs = _foreign_programs(ctx)
+    esc = lambda t: t.replace("\\", "\\\\").replace('"', '\\"')
+    text = FOREIGN_PRELUDE + "\n".join('(run-prog %d "%s")' % (i, esc(t)) for i, (_, t) in enumerate(progs)) + "\n"
+    outs = {}
+    for v, d in dirs.items():
+        r = _run_file(d, text, "foreign-" + v)
+        outs[v] = _split_cases(r.stdout)
+        if len(outs[v]) != len(progs):
+            ctx.broken("outer-correspondence:C09:foreign:" + v, "build %s ran %d of %d programs of the C03/C05 generators (rc=%s): %s" % (v, len(outs[v]), len(progs), r.returncode, r.stderr[-400:]))
+    pairs = [(v, base, kind) for v, base, kind in [("default", "nosimplify", "simplify"), ("customll", "default", "customll"),
+                                                    ("both", "nosimplify", "customll-without-simplify")] if v in outs and base in outs]
+    nerr = 0
+    for i, (k, t) in enumerate(progs):
+        ctx.count(1, key=("foreign", t), nontrivial=True)
+        ref = outs.get("nosimplify", {}).get(i)
+        nerr += bool(ref) and ref[-1] == "ERR"
+        for v, base, kind in pairs:
+            if outs[v].get(i) != outs[base].get(i):
+                ctx.violation("build-variant:%s-changes-output" % kind, input=t, family=k, expected=outs[base].get(i), observed=outs[v].get(i), variant=v, reference=base,
+                              replay=_heredoc_replay(FOREIGN_PRELUDE + '(run-prog 0 "%s")\n' % esc(t), list(dirs.values()), "all builds must print the same"),
+                              why="identical program text (a program of the %s generator, forms evaluated one by one in a fresh environment) prints different output under build variant %s than under %s" % (k.split(":")[0], v, base))
+    ctx.note("programs of the C03 / C05 generators run under the four builds: %d (C03 %d, C05 %d); ending in an error (in every build alike): %d"
+             % (len(progs), sum(1 for k, _ in progs if k.startswith("C03")), sum(1 for k, _ in progs if k.startswith("C05")), nerr))
+    if progs:
+        ctx.sample(dict(kind="outer-foreign", family=progs[0][0], program=progs[0][1], outputs={v: outs[v].get(0) for v in outs}))
+
+
 def _opcode_table(ctx):
     """(G-lite) the set of opcodes the pass may fold = class SEXP_OPC_ARITHMETIC in opcodes.c; the model's is_arith says 0..5"""
     import re
@@ -979,6 +1193,12 @@ def _simplify_part(ctx, exe, dirs):
     g3 = Gen(rng, rich=True)          # with rest parameters: outside the SPEC interpreters, inside the model of the pass
     progs += [g3.program() for _ in range(n // 4)]
     progs += [g.closure_program() for _ in range(n // 4)]      # closures / recursion: second SPEC interpreter (Sem2.eval2)
+    # round 3: rest parameters called with several arities, pairs / vectors as values: third SPEC interpreter (Sem3.eval3)
+    progs += [g3.data_program() for _ in range(n // 4)] + [g3.arity_program() for _ in range(n // 10)]
+    FLAGCALL = "((lambda (f) (list (f 1 2) 20 (f 3 4 5) 30 (f 6 7 8 9) 10)) %s)"
+    flaglams = sorted(set(Gen.REST_BODIES))
+    flaglams = ["(lambda (a b . r) %s)" % b for b in flaglams] + [g3.restflag_lambda() for _ in range(n // 20)]
+    progs += [FLAGCALL % l for l in flaglams]                  # the flagged procedures really called (SPEC + four builds)
     # corpus: minimised past disagreements and hand-written boundary programs run first
     cdir = os.path.join(HERE, "..", "corpus", "C09")
     corpus = []
@@ -987,6 +1207,9 @@ def _simplify_part(ctx, exe, dirs):
             if f.endswith(".scm"):
                 corpus += [l.strip() for l in open(os.path.join(cdir, f)) if l.strip() and not l.startswith(";")]
     progs = corpus + progs
+    flag_lo = len(progs)
+    progs += flaglams                                           # bare lambdas: dumps + procedure flags (K-inner only)
+    flagset = set(range(flag_lo, len(progs)))
     d0 = dirs["default"]
     # probe: the exact-arithmetic defect of C04 (most negative fixnum divided by the bignum 2^62, fix pending in
     # fixes/C04-quotient-min-fixnum-by-bignum.patch) also shows up as a difference between the SPEC interpreter and
@@ -999,7 +1222,7 @@ def _simplify_part(ctx, exe, dirs):
             ctx.note("probe: (quotient/remainder -2^62 2^62) = %s in every build, Z says (-1 0): C04's defect (fixes/C04-quotient-min-fixnum-by-bignum.patch not applied to this tree)" % pr.stdout.strip())
     # ---------------------------------------------------------------- K-inner: analyze / optimize / dump
     htext = open(os.path.join(HERE, "..", "harness", "c09_simplify.scm")).read()
-    before, after, dynobs = {}, {}, {}
+    before, after, dynobs, pflags = {}, {}, {}, {}
     # one chibi process per 1000 programs (a session of many thousand analyze/optimize calls is not what is under test);
     # if a process dies, the cases it did not finish are run again in a fresh process, and the death is reported
     CH, r = 1000, None
@@ -1008,13 +1231,15 @@ def _simplify_part(ctx, exe, dirs):
         for attempt in range(3):
             if not todo:
                 break
-            text = htext + "\n".join("(c09-case %d '(lambda () %s))" % (i, progs[i]) for i in todo) + "\n"
+            text = htext + "\n".join(("(c09-flag %d '%s)" % (i, progs[i])) if i in flagset else ("(c09-case %d '(lambda () %s))" % (i, progs[i])) for i in todo) + "\n"
             r = _run_file(d0, text, "inner")
             done = set()
             for line in r.stdout.split("\n"):
                 f = line.split(" ")
                 if len(f) > 2 and f[0].isdigit() and f[1] in ("A", "B"):
                     (before if f[1] == "A" else after)[int(f[0])] = f[2:]
+                elif len(f) == 3 and f[0].isdigit() and f[1] == "F":
+                    pflags[int(f[0])] = f[2]
                 elif len(f) >= 2 and f[0].isdigit() and f[1] in ("H", "X"):
                     dynobs[int(f[0])] = f[1:]
                     done.add(int(f[0]))
@@ -1074,22 +1299,56 @@ def _simplify_part(ctx, exe, dirs):
             nms[i] = (nm, a, b)
             # the programs are analysed as (lambda () <program>); their meaning is that of calling the thunk
             # the pass ran under an installed handler (7) and a parameter binding: the model is asked under the same state
-            reqs += ["simplify 7:%d " % (i + 1) + " ".join(a), "run A 0 " + " ".join(a), "run A 0 " + " ".join(b), "wf " + " ".join(a),
-                     "run2 400 A 0 " + " ".join(a), "run2 400 A 0 " + " ".join(b), "erased_agree - " + " ".join(a)]
+            # simplifyN = the kind-exact model with the code's pass order (Kinded2.ksimpN: an operator that only became a lambda gets the let handling)
+            reqs += ["simplifyN 7:%d " % (i + 1) + " ".join(a), "run A 0 " + " ".join(a), "run A 0 " + " ".join(b), "wf " + " ".join(a),
+                     "run2 400 A 0 " + " ".join(a), "run2 400 A 0 " + " ".join(b), "erased_agree - " + " ".join(a),
+                     "run3 400 A 0 " + " ".join(a), "run3 400 A 0 " + " ".join(b), "becomes " + " ".join(a), "stableN " + " ".join(a),
+                     "restflags " + " ".join(b)]
             idx.append(i)
+    NREQ = 12
     mo = ctx.run_model(exe, reqs)
-    sem, sem2_defined = {}, 0
+    sem, sem2_defined, sem3_defined, sem3_only, n_becomes, n_stale = {}, 0, 0, 0, 0, 0
     for k, i in enumerate(idx):
         nm, a, b = nms[i]
-        m_simpl, m_run, m_run_opt, m_wf, m_run2, m_run2_opt, m_erased = mo[7 * k: 7 * k + 7]
+        m_simpl, m_run, m_run_opt, m_wf, m_run2, m_run2_opt, m_erased, m_run3, m_run3_opt, m_becomes, m_stable, m_rflags = mo[NREQ * k: NREQ * k + NREQ]
         if m_erased != "1":
             ctx.broken("theorem-instance:ksimplify_refines_simplify", "erase (ksimplify e) <> simplify (erase e) on %s" % progs[i])
-        if m_run.startswith("V") and m_run2.startswith("V") and m_run2 != "V proc |" and m_run != m_run2:
-            ctx.broken("spec:two-interpreters-differ", "eval gives %s, eval2 gives %s on %s" % (m_run, m_run2, progs[i]))
-        if not m_run.startswith("V"):          # outside the let-fragment: the interpreter with closures decides
-            m_run, m_run_opt = m_run2, m_run2_opt
-        sem2_defined += m_run2.startswith("V")
-        sem[i] = (m_run, nm)
+        if m_stable != "1":
+            ctx.broken("model:simpN-level-bound", "ksimpN (size e) differs from ksimpN (size e + 1), or erase does not commute with it, on %s" % progs[i])
+        n_becomes += m_becomes == "1"
+        specs = [(_spec_of(m_run, nm), _spec_of(m_run_opt, nm)), (_spec_of(m_run2, nm), _spec_of(m_run2_opt, nm)),
+                 (_spec_of(m_run3, nm, True), _spec_of(m_run3_opt, nm, True))]
+        agree = lambda x, y: x is None or y is None or (x[1] == y[1] and (x[0] is None or y[0] is None or x[0] == y[0]))
+        if not agree(specs[0][0], specs[1][0]) or not agree(specs[1][0], specs[2][0]) or not agree(specs[0][0], specs[2][0]):
+            ctx.broken("spec:interpreters-differ", "eval gives %s, eval2 gives %s, eval3 gives %s on %s" % (m_run, m_run2, m_run3, progs[i]))
+        # the let-fragment interpreter decides where it is defined, else the one with closures, else the one with rest parameters and data
+        spec, spec_opt = next(((x, y) for x, y in specs if x is not None), (None, None))
+        sem2_defined += specs[1][0] is not None
+        sem3_defined += specs[2][0] is not None
+        sem3_only += specs[2][0] is not None and specs[1][0] is None and specs[0][0] is None
+        sem[i] = (spec, nm)
+        m_run, m_run_opt = ("V %s" % (spec,), "V %s" % (spec_opt,) if spec_opt is not None else "undefined (error / outside the interpreter)") if spec is not None else ("NONE", "NONE")
+        # ---- unused-rest analysis (simplify.c:190-205) on the SIMPLIFIED lambda vs. the set-vars computed before the pass
+        stale = [e for e in m_rflags.split()[1:] if e.endswith(":0:1")]
+        n_stale += bool(stale)
+        if i in flagset and i in pflags:
+            ent = next((e.split(":") for e in m_rflags.split()[1:] if e.startswith("1:")), None)
+            ctx.count(1, key=("restflag", progs[i]), nontrivial=True)
+            if ent is None or not pflags[i].isdigit():
+                ctx.broken("inner-correspondence:C09:rest-flags", "no procedure flags / no rest lambda for %s: %s / %s" % (progs[i], pflags[i], m_rflags))
+            else:
+                impl_unused = bool(int(pflags[i]) & 2)
+                call = FLAGCALL % progs[i]
+                rp = _heredoc_replay(OUTER_PRELUDE + "(run-case 0 (lambda () %s))\n" % call, [d0] + ([dirs["nosimplify"]] if "nosimplify" in dirs else []),
+                                     "the two builds must print the same")
+                if impl_unused and ent[1] == "0" and ent[2] == "1":
+                    ctx.violation("rest:unused-rest-flag-with-boxed-rest-parameter", input=progs[i], analysed=" ".join(before[i]), optimized=" ".join(after[i]),
+                                  expected="procedure flags without SEXP_PROC_UNUSED_REST: the rest parameter is in the lambda's set-vars, so the prologue boxes its stack slot (vm.c:699-707)",
+                                  observed="procedure-flags = %s: flagged unused-rest; called with surplus arguments no rest slot exists and the prologue boxes a slot of the CALLER's frame" % pflags[i],
+                                  replay=rp, why="the pass removed every assignment to the rest parameter (dead branch), sexp_rest_unused_p looks only at the simplified body, "
+                                                 "the set-vars list dates from before the pass: model Rest.rest_unused (repaired analysis) vs rest_unused_old; fix fixes/C09-unused-rest-stale-set-vars.patch")
+                elif impl_unused != (ent[1] == "1"):
+                    ctx.broken("inner-correspondence:C09:rest-flags", "sexp_rest_unused_p on the simplified lambda: procedure-flags %s, model Rest.rest_unused says %s on %s (simplified: %s)" % (pflags[i], ent[1], progs[i], " ".join(after[i])))
         ctx.count(1, key=("innerB", progs[i]), nontrivial=(a != b))
         ctx.cov["traces_validated_against_impl"] += 1
         replay = "cat %s > /tmp/c09.scm; echo \"(c09-case 0 '(lambda () %s))\" >> /tmp/c09.scm; LD_LIBRARY_PATH=%s CHIBI_MODULE_PATH=%s/lib %s/chibi-scheme /tmp/c09.scm   # A = analysed, B = after sexp_simplify" % (
@@ -1110,13 +1369,15 @@ def _simplify_part(ctx, exe, dirs):
             else:
                 ctx.broken("correspondence:simplify", "model of simplify.c and the implementation produce different ASTs (same meaning under the SPEC): %s model=%s impl=%s" % (progs[i], m_simpl, " ".join(b)))
         elif m_run.startswith("V") and m_run_opt != m_run:
-            ctx.broken("theorem-instance:simplify_sound", "SPEC interpreter gives %s before and %s after the model's simplify on %s" % (m_run, m_run_opt, progs[i]))
+            ctx.broken("theorem-instance:simplify_sound", "SPEC interpreter gives %s before and %s after the model's simplify on %s%s" % (
+                m_run, m_run_opt, progs[i], " (an operator became a lambda: second pass, outside the proved level-0 model)" if m_becomes == "1" else ""))
     if idx:
         i = idx[min(len(idx) - 1, len(corpus))]
-        ctx.sample(dict(kind="inner-simplify", program=progs[i], analysed=" ".join(before[i]), optimized=" ".join(after[i]), spec=sem[i][0]))
+        ctx.sample(dict(kind="inner-simplify", program=progs[i], analysed=" ".join(before[i]), optimized=" ".join(after[i]), spec=str(sem[i][0])))
     # ---------------------------------------------------------------- K-outer: the same programs under the four builds
     g2 = Gen(rng, rich=True)
     rich = RICH + [g2.program() for _ in range(n // 2)] + [g2.arity_program() for _ in range(n // 10)]
+    progs = progs[:flag_lo]          # the bare lambdas are not run (their call programs are)
     allp = progs + rich
     text = OUTER_PRELUDE + "\n".join("(run-case %d (lambda () %s))" % (i, p) for i, p in enumerate(allp)) + "\n"
     outs = {}
@@ -1139,11 +1400,9 @@ def _simplify_part(ctx, exe, dirs):
                 ctx.violation("build-variant:%s-changes-output" % kind, input=p, expected=outs[base].get(i), observed=outs[v].get(i), variant=v, reference=base,
                               replay=replay, why="identical program text prints different output under build variant %s than under %s" % (v, base))
         # against the SPEC interpreter where it defines the meaning
-        if i in sem and sem[i][0].startswith("V") and ref is not None:
-            m_run, nm = sem[i]
-            val, _, outl = m_run.partition(" |")
-            exp = [_show_const(c, nm) for c in outl.split()]
-            v = _show_const(val.split()[1], nm) if val.split()[1] != "proc" else None
+        if i < len(progs) and i in sem and sem[i][0] is not None and ref is not None and None not in sem[i][0][1]:
+            (v, outl), nm = sem[i]
+            exp = list(outl)
             exp.append("RES " + v if v is not None else None)
             got = list(ref)
             if exp[-1] is None and got and got[-1].startswith("RES"):
@@ -1158,8 +1417,12 @@ def _simplify_part(ctx, exe, dirs):
                                   why="the unoptimised build prints something else than the SPEC interpreter (coq/C09/Simplify.v eval) defines")
     _handler_part(ctx, dirs)
     _unbound_part(ctx, dirs)
+    _registered_passes(ctx, dirs)
+    _foreign_part(ctx, dirs)
     ctx.sample(dict(kind="outer-variants", program=allp[len(progs)], outputs={v: outs[v].get(len(progs)) for v in outs}))
-    ctx.note("programs whose meaning a SPEC interpreter defines: %d of %d (eval2, with closures: %d)" % (sum(1 for v in sem.values() if v[0].startswith("V")), len(sem), sem2_defined))
+    ctx.note("programs whose meaning a SPEC interpreter defines: %d of %d (eval2, with closures: %d; eval3, with rest parameters and data: %d, of which only eval3: %d); "
+             "programs in which an operator only BECAME a lambda (second pass, Simplify2.simpN): %d; programs with a rest parameter left in the set-vars without any assignment after the pass: %d"
+             % (sum(1 for v in sem.values() if v[0] is not None), len(sem), sem2_defined, sem3_defined, sem3_only, n_becomes, n_stale))
     ctx.note("generator distribution (let-fragment programs): %s; rich programs: %d fixed + %s" % (g.stats, len(RICH), g2.stats))
 
 
